@@ -15,7 +15,7 @@ RULE = ("extra-data trajectories of random shots (zeroed flat fire, arcing 5-40 
         "target heights 0.01-60 ft in any distance unit, increasing sequences for the monotonicity clause); a case = "
         "(shot, request); non-trivial when the target row is not the first/last row and at least one other row lies "
         "outside the target")
-MUST_OBSERVE = ["canted_shots", "cases_under_other_preferred_units", "danger_spaces", "target_on_rising_branch", "target_on_falling_branch", "inclined_sight_line",
+MUST_OBSERVE = ["ranges_given_as_plain_numbers", "canted_shots", "cases_under_other_preferred_units", "danger_spaces", "target_on_rising_branch", "target_on_falling_branch", "inclined_sight_line",
                 "bound_is_interior_row", "bound_is_end_row", "monotonic_pairs", "beyond_rejected", "plain_rejected", "explicit_look_angle_argument", "shot_reaimed_after_fire"]
 ASSUMPTIONS = ["'drop' is the row's drop relative to the sight line (target_drop), as in the reported DangerSpace rows"]
 DIST = si.DIMENSIONS["Distance"]
@@ -38,7 +38,13 @@ def check_space(ctx, hit, case, q_ft, h_ft, h_unit):
     if case.get("look_arg_deg") is not None:
         kw["look_angle"] = pb.Angular.Degree(case["look_arg_deg"])       # the optional third argument (an annotation for plots)
         ctx.count("explicit_look_angle_argument")
-    ds = hit.danger_space(Distance.Foot(q_ft), Unit[h_unit](si.from_base("Distance", h_unit, h_ft * 0.3048)), **kw)
+    at_arg = Distance.Foot(q_ft)
+    if case.get("bare_at_range") and int(q_ft * 7) % 3 == 0 and q_ft < (rows[-1].distance >> Distance.Foot) * (1 - 1e-9):
+        # (not for a request at the very end of the trajectory: the round trip through another unit may land an ulp beyond it)
+        # the range as a plain number of the preferred distance unit in force (a documented form of the argument)
+        at_arg = Distance.Foot(q_ft) >> PreferredUnits.distance
+        ctx.count("ranges_given_as_plain_numbers")
+    ds = hit.danger_space(at_arg, Unit[h_unit](si.from_base("Distance", h_unit, h_ft * 0.3048)), **kw)
     ctx.count("danger_spaces")
     c = dict(case, at_range_ft=q_ft, height_ft=h_ft, height_unit=h_unit)
     req = Distance.Foot(q_ft).raw_value
@@ -183,6 +189,7 @@ def gen_case(rng):
         prefs = {"distance": rng.choice(DIST), "target_height": rng.choice(DIST), "drop": rng.choice(DIST),
                  "angular": rng.choice(si.DIMENSIONS["Angular"]), "adjustment": rng.choice(si.DIMENSIONS["Angular"])}
     return {"shot": s, "zero_ft": zero_ft, "range_ft": range_ft, "step_ft": step, "queries": queries, "prefs": prefs,
+            "bare_at_range": rng.random() < 0.3,
             "look_arg_deg": rng.choice([None, None, 0.0, round(rng.uniform(-30, 30), 1)]),
             "reaim_deg": rng.choice([None, None, None, round(rng.uniform(-20, 20), 1)])}
 
